@@ -626,19 +626,28 @@ func (si *stackIterator) ProgramCounter() experimental.ProgramCounter {
 }
 
 // Function implements the same method as documented on experimental.StackIterator.
+//
+// The returned value describes the current frame also after the next call to Next: callers
+// such as experimental.MultiFunctionListenerFactory keep it.
 func (si *stackIterator) Function() experimental.InternalFunction {
-	return si
+	return internalFunction{def: si.currentDef, eng: si.eng}
+}
+
+// internalFunction implements experimental.InternalFunction.
+type internalFunction struct {
+	def api.FunctionDefinition
+	eng *engine
 }
 
 // Definition implements the same method as documented on experimental.InternalFunction.
-func (si *stackIterator) Definition() api.FunctionDefinition {
-	return si.currentDef
+func (f internalFunction) Definition() api.FunctionDefinition {
+	return f.def
 }
 
 // SourceOffsetForPC implements the same method as documented on experimental.InternalFunction.
-func (si *stackIterator) SourceOffsetForPC(pc experimental.ProgramCounter) uint64 {
+func (f internalFunction) SourceOffsetForPC(pc experimental.ProgramCounter) uint64 {
 	upc := uintptr(pc)
-	cm := si.eng.compiledModuleOfAddr(upc)
+	cm := f.eng.compiledModuleOfAddr(upc)
 	return cm.getSourceOffset(upc)
 }
 
